@@ -237,12 +237,23 @@ impl<OutL: ExchangeData, OutR: ExchangeData> BinaryStartReceiver<OutL, OutR> {
         let data = if self.first_message && (self.left.cached || self.right.cached) {
             debug_assert!(!self.left.cached || self.left.cache_full);
             debug_assert!(!self.right.cached || self.right.cache_full);
-            self.first_message = false;
-            if self.left.cached {
+            let data = if self.left.cached {
                 Side::Right(self.right.recv(timeout))
             } else {
                 Side::Left(self.left.recv(timeout))
+            };
+            // a new iteration starts only when the other side sends something other than
+            // `Terminate`: a batch of `Terminate`s (or a timeout) must not trigger the replay of
+            // the cache, the other replicas of that side may still have to terminate
+            let starts_iteration = match &data {
+                Side::Left(Ok(msg)) => msg.has_non_terminate(),
+                Side::Right(Ok(msg)) => msg.has_non_terminate(),
+                _ => false,
+            };
+            if starts_iteration {
+                self.first_message = false;
             }
+            data
         } else if self.left.cached && self.left.cache_full && !self.left.cache_finished() {
             // The left side is cached, therefore we can access it immediately
             return Ok(self.left.next_cached_item());
